@@ -40,7 +40,7 @@ TReset      == Is("Reset")
                /\ Step
 TClientSend == Is("ClientSend") /\ pc[E.r] = "new" /\ Stutter
                /\ Step
-TRegister   == Is("Register") /\ E.path \in TReq /\ R!Register(E.path, E.id)
+TRegister   == Is("Register") /\ E.uri \in TReq /\ R!Register(E.uri, E.id)
                /\ Step
 TListStart  == Is("ListStart") /\ R!ListStart(E.p)
                /\ Step
@@ -60,7 +60,8 @@ TDedup      == Is("Dedup") /\ cur # <<>> /\ Head(cur) = E.id /\ R!AgentDedupStep
                /\ Step
 TSpawn      == Is("Spawn") /\ w[E.id] = "fetch" /\ Stutter
                /\ Step
-TFetch      == Is("Fetch") /\ (E.found <=> pending[E.id] # "none") /\ R!WFetch(E.id)
+TFetch      == Is("Fetch") /\ (E.found <=> pending[E.id] # "none")
+               /\ R!WFetch(E.id)
                /\ Step
 TWForward   == Is("WForward") /\ w[E.id] = "forward" /\ Stutter
                /\ Step
@@ -77,7 +78,19 @@ TBackendFault == Is("BackendFault")
                /\ Step
 TPostLookup == Is("PostLookup") /\ (E.found <=> pending[E.id] # "none") /\ R!PostLookup(E.id)
                /\ Step
-TClientResp == Is("ClientResp") /\ R!Handoff(E.id)
+\* hand-composition LocalAnswer ; Handoff (TLC has no action composition): the agent answered
+\* without the backend (502 of ReverseProxy, 4xx of the shim) and the proxy hands that over
+KindOf(st) == IF st = 502 THEN "502" ELSE "status" \o ToString(st)
+LocalHandoff(i, st) ==
+  /\ w[i] = "forward" /\ wreq[i] \in TVictims /\ st # 200
+  /\ plook[i] \notin {"none", "nf"} /\ pc[plook[i]] = "waiting"
+  /\ inflight' = [inflight EXCEPT ![plook[i]] = <<KindOf(st), wreq[i]>>]
+  /\ wresp' = [wresp EXCEPT ![i] = <<KindOf(st), wreq[i]>>]
+  /\ pc' = [pc EXCEPT ![plook[i]] = "copying"]
+  /\ w' = [w EXCEPT ![i] = "done"]
+  /\ hit' = hit \cup {wreq[i]} /\ faults' = faults + 1
+  /\ UNCHANGED <<idOf, pending, ps, batch, agent, cur, seen, wreq, plook, delivered, calls, handed>>
+TClientResp == Is("ClientResp") /\ (R!Handoff(E.id) \/ LocalHandoff(E.id, E.status))
                /\ Step
 \* the logged response must be the one Relay derives through the chain, and (OneClientPerResponse,
 \* checked incrementally here because the quantifier over all pairs is quadratic in the trace) no
